@@ -54,8 +54,8 @@ func c08Apply(d *document.Document, op string, v int) error {
 
 type c08snap struct {
 	marshal, root, cp, vv, pres string
-	changes, undo                int
-	canUndo, canRedo             bool
+	changes, undo               int
+	canUndo, canRedo            bool
 }
 
 func c08Snap(d *document.Document) c08snap {
